@@ -50,10 +50,18 @@ package ext
 //@   requires r != nil && 0 <= n && n <= r.avail
 //@   modifies r.pos, r.avail
 
+//@ ghost var trN int scratch
+//@ ghost var trOK bool scratch
+// (C02: the trailer section is consumed only through parseTrailer + MustDiscard of exactly the parsed length - never by a
+// Skip on a guess, which fails where a Peek would have waited for the rest of the line.)
 //@ func tryReadTrailer(t, r, n) err
 //@   props C03, C01, C02, C11, C14
+//@   forbid @C02 Skip!
+//@   ghostset after parseTrailer: trN = result0
+//@   ghostset after parseTrailer: trOK = (result1 == nil)
+//@   assert @C02 before MustDiscard: trOK && arg1 == trN
 //@   requires r != nil && t != nil
-//@   modifies t._all, alltype(protocol.argsKV), r.pos, r.avail, r.failed, mem, parseArr, hdrComplete, heNeedMore
+//@   modifies t._all, alltype(protocol.argsKV), r.pos, r.avail, r.failed, mem, parseArr, hdrComplete, heNeedMore, trN, trOK
 //@   allocates
 
 //@ func ReadTrailer(t, r) err
